@@ -133,6 +133,7 @@ impl ScalarOut for f32 {
 pub fn ov_to_json(v: &OV) -> Option<J> {
     Some(match v {
         OV::Null => J::Null,
+        OV::Poison => return None,
         OV::Bool(b) => json!(b),
         OV::Int(x) => json!(x),
         OV::Neg(x) if *x < 0 => json!(x),
@@ -213,7 +214,7 @@ pub fn dispatch(ty: &str, input: &OV, src: &str) -> Option<J> {
 /// value record (DScalar shape) of an OV scalar / container summary
 pub fn value_rec(v: &OV) -> J {
     match v {
-        OV::Null => scalar_rec("null", false, 0, vec![0], "", 0),
+        OV::Null | OV::Poison => scalar_rec("null", false, 0, vec![0], "", 0),
         OV::Bool(b) => scalar_rec("bool", *b, 0, vec![0], "", 0),
         OV::Int(x) => {
             let s = signed_j(&x.to_string());
